@@ -44,6 +44,12 @@ def run(tier, seed):
             adl = [0, 1, 15, 16, 17, 31, 32, 33, 48, 64][tag % 10]
             line = "sstream %s %s %s - - %s D %s D" % (api, hx(key), hx(hdr), streamfam.tok_push(rng, tag % 19, adl, tag), streamfam.tok_push(rng, 3, 16 * (tag % 4), 0))
             cases.append(Case(line, cls="tag-byte/" + api, expect=streamfam.expect_history(line), meta={"why": "stream message with tag byte 0x%02x and %d bytes of associated data" % (tag, adl)}))
+    # associated data at and past the 16-bit boundary (its length enters the authenticator as a 64-bit word)
+    for api in ("classic", "object", "mixed"):
+        for adl in ((255, 256, 65535, 65536, 65537, 70000) if tier == "quick" else (255, 256, 257, 4095, 65535, 65536, 65537, 70000, 131072, 1 << 20)):
+            key, hdr = rbytes(rng, 32), rbytes(rng, 24)
+            line = "sstream %s %s %s - - %s D %s D" % (api, hx(key), hx(hdr), streamfam.tok_push(rng, 5, adl, 0), streamfam.tok_push(rng, 0, adl, 3))
+            cases.append(Case(line, cls="large-ad/" + api, expect=streamfam.expect_history(line), meta={"why": "stream messages with %d bytes of associated data" % adl}))
     # lock-step at the upper end of the length range (F16): libsodium accepts messages up to 64·(2³²−2) bytes, the ChaCha20 crate
     # behind dryoc can encrypt 64 bytes less; since E16 dryoc answers Err there (before E16: a panic, caught by C04).  The libsodium
     # column of `stream_huge push` is libsodium's messagebytes_max(), not a run.
